@@ -4,6 +4,7 @@ import XV.Lemmas.Formatter
 import XV.Props.C05
 namespace XV.Lemmas.Formatter
 open XV.Model.Formatter XV.Model.ByteCodec XV.Gen.ByteTables XV.Gen.Escapes XV.Spec.Unescape Rd
+open XV.Spec.Escaping
 set_option maxRecDepth 8000
 
 theorem suff_char10 (f : Bool) : Suff false ⟨false, f⟩ .CharEscapes := by
